@@ -556,6 +556,14 @@ func C14(c *core.Ctx) {
 	run("nil-subpolicies", "both sub-policies absent", &ccpb.Policy{}, quotes)
 	run("nil-subpolicies", "header policy absent", &ccpb.Policy{TdQuoteBodyPolicy: &ccpb.TDQuoteBodyPolicy{MrTd: q.TdQuoteBody.MrTd}}, quotes)
 	run("nil-subpolicies", "body policy absent", &ccpb.Policy{HeaderPolicy: &ccpb.HeaderPolicy{MinimumQeSvn: 1}}, quotes)
+	// malformed fields in the one sub-policy that is present
+	run("nil-subpolicies", "body policy absent, vendor id one byte short", &ccpb.Policy{HeaderPolicy: &ccpb.HeaderPolicy{QeVendorId: q.Header.QeVendorId[:15]}}, quotes)
+	run("nil-subpolicies", "body policy absent, vendor id one byte long", &ccpb.Policy{HeaderPolicy: &ccpb.HeaderPolicy{QeVendorId: append(append([]byte{}, q.Header.QeVendorId...), 1)}}, quotes)
+	run("nil-subpolicies", "body policy absent, minimum_qe_svn 65536", &ccpb.Policy{HeaderPolicy: &ccpb.HeaderPolicy{MinimumQeSvn: 65536}}, quotes)
+	run("nil-subpolicies", "body policy absent, minimum_pce_svn 2^32-1", &ccpb.Policy{HeaderPolicy: &ccpb.HeaderPolicy{MinimumPceSvn: 0xffffffff}}, quotes)
+	run("nil-subpolicies", "header policy absent, MR_TD one byte short", &ccpb.Policy{TdQuoteBodyPolicy: &ccpb.TDQuoteBodyPolicy{MrTd: q.TdQuoteBody.MrTd[:47]}}, quotes)
+	run("nil-subpolicies", "header policy absent, a 47-byte RTMR entry", &ccpb.Policy{TdQuoteBodyPolicy: &ccpb.TDQuoteBodyPolicy{Rtmrs: [][]byte{nil, q.TdQuoteBody.Rtmrs[1][:47], nil, nil}}}, quotes)
+	run("nil-subpolicies", "empty body policy, vendor id one byte short", &ccpb.Policy{HeaderPolicy: &ccpb.HeaderPolicy{QeVendorId: q.Header.QeVendorId[:15]}, TdQuoteBodyPolicy: &ccpb.TDQuoteBodyPolicy{}}, quotes)
 	run("nil-policy", "nil policy", nil, quotes)
 	for _, f := range optFields {
 		for _, vn := range []string{"nil", "empty", "equal", "diff-random", "short", "long"} {
